@@ -408,7 +408,8 @@ Record dns_question := { q_labels : list bytes; q_type : N; q_class : N; q_end :
 Definition dns_decode_question (p : slice) : res dns_question :=
   (qd <- dns_qdcount p ;;
    if negb (qd =? 1) then Err EParseFrame else
-   if Nat.ltb (len p) (12 + 6) then Err EParseFrame else
+   (* repo commit 8b21b8e: index+5 > len (was +6: the root-name query was rejected) *)
+   if Nat.ltb (len p) (12 + 5) then Err EParseFrame else
    (* decodeName: offset >= len -> error; data[index] == 0 -> (nil, index+1) *)
    '(labs, index) <- dns_labels (S (len p)) p 12 12 [] ;;
    (* after the loop decodeName returns index+1 (skips the terminating zero) *)
@@ -487,3 +488,23 @@ Definition dns_decode_lib (p : slice) : res dns_view :=
   (i <- dns_tranid p ;; f <- dns_flags p ;; qd <- dns_qdcount p ;; an <- dns_ancount p ;; ns <- dns_nscount p ;;
    ar <- dns_arcount p ;; q <- dns_decode_question p ;;
    Ok {| dv_id := i; dv_flags := f; dv_qd := qd; dv_an := an; dv_ns := ns; dv_ar := ar; dv_question := q |})%res.
+
+(* ================================================================ *)
+(* AppendPayload with the caller's buffer as part of the result: (result, storage after the
+   call).  The capacity check is the first statement of each function: on ErrPayloadTooBig the
+   storage is returned as it was (nothing has been written).  For a panic the storage is
+   unspecified (the model returns the old one; it is never observed). *)
+Definition buf_after (p : slice) (r : res slice) : bytes := match r with Ok s => arr s | _ => arr p end.
+
+Definition ip4_append_st (p : slice) (b : bytes) (proto : N) : res slice * bytes :=
+  if Nat.ltb (cap p - len p) (List.length b) then (Err EPayloadTooBig, arr p)
+  else let r := ip4_append p b proto in (r, buf_after p r).
+Definition udp_append_st (p : slice) (b : bytes) : res slice * bytes :=
+  if Nat.ltb (cap p - len p) (List.length b) then (Err EPayloadTooBig, arr p)
+  else let r := udp_append p b in (r, buf_after p r).
+Definition ip6_append_st (p : slice) (b : bytes) (b_is_nil : bool) (nh : N) : res slice * bytes :=
+  if b_is_nil || Nat.ltb (cap p - len p) (List.length b) then (Err EPayloadTooBig, arr p)
+  else let r := ip6_append p b b_is_nil nh in (r, buf_after p r).
+Definition ether_append_st (p : slice) (payload : bytes) (pcap : nat) : res slice * bytes :=
+  if Nat.ltb (cap p) (List.length payload + 14) then (Err EPayloadTooBig, arr p)
+  else let r := ether_append p payload pcap in (r, buf_after p r).
